@@ -348,6 +348,56 @@ def r_labelkind(A, ctx, scope, rule="R-LABELKIND"):
 PROTECTED = {"X", "Y", "CSC_DATA", "CSC_INDPTR", "CSC_INDICES", "GRP_PTR", "GRP_IDX"}
 
 
+MAY_ALIAS_CALLS = {"check_array", "check_X_y", "_validate_data", "validate_data", "asarray", "asanyarray",
+                   "asfortranarray", "ascontiguousarray", "column_or_1d", "ravel", "reshape",
+                   "atleast_1d", "atleast_2d", "squeeze", "view", "check_consistent_length"}
+
+
+def _may_alias_input(value, name):
+    """the right-hand side may evaluate to the very array bound to `name` (validation and
+    as-array helpers return their argument when no conversion is needed)"""
+    if isinstance(value, ast.Name):
+        return value.id == name
+    if isinstance(value, ast.Call):
+        fn = value.func
+        short = fn.attr if isinstance(fn, ast.Attribute) else (fn.id if isinstance(fn, ast.Name) else "")
+        if short == "astype":
+            copy_false = any(k.arg == "copy" and isinstance(k.value, ast.Constant) and k.value.value is False
+                             for k in value.keywords)
+            return copy_false and name in names_in(fn)
+        if short in MAY_ALIAS_CALLS:
+            used = set()
+            for a in list(value.args) + [k.value for k in value.keywords]:
+                used |= names_in(a)
+            if isinstance(fn, ast.Attribute):
+                used |= names_in(fn.value)
+            return name in used
+    if isinstance(value, ast.IfExp):
+        return _may_alias_input(value.body, name) or _may_alias_input(value.orelse, name)
+    return False
+
+
+def _aliased_self_attr(value, params):
+    """constructor parameter p such that `value` may evaluate to the array self.p itself"""
+    if isinstance(value, ast.Attribute) and isinstance(value.value, ast.Name) and value.value.id == "self" \
+            and value.attr in params:
+        return value.attr
+    if isinstance(value, ast.Call):
+        fn = value.func
+        short = fn.attr if isinstance(fn, ast.Attribute) else (fn.id if isinstance(fn, ast.Name) else "")
+        if short in MAY_ALIAS_CALLS:
+            for a in list(value.args) + ([fn.value] if isinstance(fn, ast.Attribute) else []):
+                r = _aliased_self_attr(a, params)
+                if r:
+                    return r
+        if short == "astype" and any(k.arg == "copy" and isinstance(k.value, ast.Constant)
+                                     and k.value.value is False for k in value.keywords):
+            return _aliased_self_attr(fn.value, params)
+    if isinstance(value, ast.IfExp):
+        return _aliased_self_attr(value.body, params) or _aliased_self_attr(value.orelse, params)
+    return None
+
+
 def r_pure(A, ctx, scope, rule="R-PURE"):
     ctx.rule(rule, "effect purity: no function reachable from solve/fit/path mutates in "
              "place a parameter bound to X, y, the CSC triple or the group structure "
@@ -421,9 +471,17 @@ def r_pure(A, ctx, scope, rule="R-PURE"):
                         if isinstance(t.value, ast.Name) and t.value.id in ("X", "y", "Y") \
                                 and t.value.id in f.params:
                             # parameter itself (not a rebound validated copy)?
-                            rebound = any(isinstance(s2, ast.Assign) and any(
-                                isinstance(tt, ast.Name) and tt.id == t.value.id for tt in s2.targets)
-                                for s2 in ast.walk(f.node) if getattr(s2, "lineno", 0) < st.lineno)
+                            # validation helpers return their argument itself when no
+                            # conversion is needed: rebinding through them is not a copy
+                            # every definition reaching the store must be a definite copy
+                            cfg = cfg_of(f)
+                            nid = cfg.node_of(st)
+                            defs = cfg.reaching_defs().get(nid, {}).get(t.value.id, set()) if nid is not None else set()
+                            rebound = bool(defs)
+                            for d in defs:
+                                a = cfg.nodes[d].ast if d >= 0 else None
+                                if not isinstance(a, ast.Assign) or _may_alias_input(a.value, t.value.id):
+                                    rebound = False
                             n += 1
                             ctx.ob(rule, f"{f.fq}::{t.value.id}[...]", rebound,
                                    what=f"{f.qualname} writes into its input `{t.value.id}`",
@@ -450,6 +508,34 @@ def r_pure(A, ctx, scope, rule="R-PURE"):
                                what=f"`{norm_src(c)[:50]}` modifies in place an array that is (or may "
                                     "alias, when validation does not copy) the caller's data",
                                loc=loc(f, c))
+    # solver objects: a local that is (or may be, through an as-array helper) the array the
+    # user passed to the constructor must not be updated in place - directly or in a callee
+    for sc in prog.solvers:
+        params = set(prog.init_params(sc))
+        for f in sc.methods.values():
+            if f.name == "__init__" or f not in flow.env:
+                continue
+            shared = {}
+            for st in ast.walk(f.node):
+                if isinstance(st, ast.Assign) and len(st.targets) == 1 and isinstance(st.targets[0], ast.Name):
+                    attr = _aliased_self_attr(st.value, params)
+                    if attr:
+                        shared[st.targets[0].id] = (attr, st)
+            for nm, (attr, st0) in sorted(shared.items()):
+                n += 1
+                sites = [s2 for (x, s2, how) in flow.direct_mutations(f) if x == nm and how != "attr"]
+                for call, callees, kind in flow.calls.get(f, ()):
+                    for callee in callees:
+                        bnd, _ = flow.bind(f, call, callee)
+                        for prm, a in bnd.items():
+                            if prm in flow.mut.get(callee, ()) and isinstance(a, ast.Name) and a.id == nm:
+                                sites.append(call)
+                ctx.ob(rule, f"{f.fq}::self.{attr}->{nm}", not sites,
+                       what=f"{f.qualname}: `{nm}` is (or may be, when no conversion is needed) the array "
+                            f"the user passed as `{attr}` to the constructor and is updated in place"
+                            + (f" at line {getattr(sites[0], 'lineno', '?')}" if sites else "")
+                            + ": the hyper-parameter is overwritten and the next solve starts from it",
+                       loc=loc(f, st0))
     ctx.extra["functions_analysed"] = len(seen)
     ctx.floor(rule, n, scope.get("floor", 25))
     ctx.floor(rule + "/functions", len(seen), 150)
